@@ -364,8 +364,13 @@ func (s *Sim) Run(body func()) (bubblePanic interface{}) {
 	return nil
 }
 
+// heartbeat is bumped at every scheduling step; a wall-clock watchdog outside the bubble
+// (see startWatchdog) turns "no step for many seconds" into a 'fails to return' verdict.
+var heartbeat atomic.Int64
+
 func (s *Sim) loop() {
 	for {
+		heartbeat.Add(1)
 		synctest.Wait()
 		// a task that is neither parked nor done after Wait is blocked
 		// outside any seam (e.g. on a channel of the library).
